@@ -1038,7 +1038,7 @@ class _Normalise(ast.NodeTransformer):
             if comp is not None:
                 stmts = stmts[:i] + [comp] + stmts[i + 2:]
                 continue
-            unrolled = self._unroll(st)
+            unrolled = self._unroll(st, stmts[:i])
             if unrolled is not None:
                 stmts = stmts[:i] + unrolled + stmts[i + 1:]
                 continue
@@ -1055,12 +1055,33 @@ class _Normalise(ast.NodeTransformer):
         return out
 
     @staticmethod
-    def _unroll(st):
+    def _unroll(st, before=()):
         """`for v in (e1, ..., en): BODY` over a literal tuple/list of simple expressions (n <= 6, no break/continue/else, v not
         rebound): BODY[v := e1]; ...; BODY[v := en]"""
-        if not (isinstance(st, ast.For) and not st.orelse and isinstance(st.target, ast.Name) and isinstance(st.iter, (ast.Tuple, ast.List))):
+        if not (isinstance(st, ast.For) and not st.orelse and isinstance(st.target, ast.Name)):
             return None
-        elts = st.iter.elts
+        it = st.iter
+        if isinstance(it, ast.Name):
+            # a local bound (in this block, just before) to a literal tuple of plain names: iterate that literal
+            src = None
+            for k in range(len(before) - 1, -1, -1):
+                b = before[k]
+                stores = {x.id for x in ast.walk(b) if isinstance(x, ast.Name) and isinstance(x.ctx, ast.Store)}
+                if isinstance(b, ast.Assign) and len(b.targets) == 1 and isinstance(b.targets[0], ast.Name) and b.targets[0].id == it.id and isinstance(b.value, (ast.Tuple, ast.List)):
+                    src = (k, b.value)
+                    break
+                if it.id in stores or isinstance(b, (ast.For, ast.While, ast.If, ast.Try, ast.With)) and it.id in {x.id for x in ast.walk(b) if isinstance(x, ast.Name) and isinstance(x.ctx, ast.Store)}:
+                    return None
+            if src is None:
+                return None
+            used = {x.id for e in src[1].elts for x in ast.walk(e) if isinstance(x, ast.Name)}
+            for b in before[src[0] + 1:]:
+                if used & {x.id for x in ast.walk(b) if isinstance(x, ast.Name) and isinstance(x.ctx, ast.Store)}:
+                    return None
+            it = src[1]
+        if not isinstance(it, (ast.Tuple, ast.List)):
+            return None
+        elts = it.elts
         def ctor_like(e):
             # `ClassName()` / `mod.ClassName(simple args)`: building a value object (the code base's messages are dataclasses)
             d = _dotted(e.func) if isinstance(e, ast.Call) else None
